@@ -64,6 +64,7 @@ type FuncVer struct {
 	heapTypes  map[string]types.Type
 	mapKeySorts map[string]*Sort
 	curCallbackSig *types.Signature
+	hookFired map[*Clause]bool
 	ghostLocals map[string]*ghostLocal
 	pointees    map[string]pointee
 	trustedCalls map[string]bool // callees whose preconditions are assumed, not proved, at this function's call sites
